@@ -66,7 +66,7 @@ Fixpoint scan_versions (pre : list N) (delim : option N) (km : list N) (vm : opt
       end
   end.
 
-Inductive vl_outcome := VLNoBucket | VLInternal | VLOk (r : vl_result) (show_ids : bool).
+Inductive vl_outcome := VLNoBucket | VLOk (r : vl_result) (show_ids : bool).
 
 Definition list_versions (s : state) (b pre : list N) (delim : option N) (km : list N) (vm : option N)
     (maxkeys : Z) : vl_outcome :=
@@ -77,10 +77,8 @@ Definition list_versions (s : state) (b pre : list N) (delim : option N) (km : l
       | [] => VLOk (scan_versions pre delim [] None maxkeys (b_objs bk) 0 [] [])
                    (match b_ver bk with VNone => false | _ => true end)
       | _ =>
-          match prefix_match pre delim km with
-          | NoMatch => VLInternal
-          | _ => VLOk (scan_versions pre delim km vm maxkeys (sm_seek km (b_objs bk)) 0 [] [])
-                      (match b_ver bk with VNone => false | _ => true end)
-          end
+          (* the marker only says where the listing resumes: it need not match the prefix *)
+          VLOk (scan_versions pre delim km vm maxkeys (sm_seek km (b_objs bk)) 0 [] [])
+               (match b_ver bk with VNone => false | _ => true end)
       end
   end.
